@@ -247,6 +247,21 @@ Fixpoint seq_run (f : N) (bal : ballot) (logs : list p1blog) (next : N) (ticks :
       :: seq_run f bal logs (base + N.of_nat (length ps)) t
   end.
 
+(* the sequencing with the proposed repair (fixes/C40_paxos_reconcile_p1bs_once.diff): the p1b logs are
+   reconciled only in the tick where leadership is gained (`first`); afterwards the running
+   next-slot counter is used *)
+Fixpoint seq_fixed_run (f : N) (bal : ballot) (logs : list p1blog) (first : bool) (next : N)
+         (ticks : list (list N)) : list (list (N * option N)) :=
+  match ticks with
+  | [] => []
+  | ps :: t =>
+      let mx := if first then max_list (slots_of logs) else None in
+      let base := match mx with Some m => m + 1 | None => next end in
+      ((if first then map (fun o => (fst (fst o), snd o)) (px_recommit f bal logs) else []) ++
+       combine (map (fun i => base + N.of_nat i) (seq 0 (length ps))) (map (@Some N) ps))
+      :: seq_fixed_run f bal logs false (base + N.of_nat (length ps)) t
+  end.
+
 Definition sv_eqb (a b : N * option N) : bool := (fst a =? fst b) && ov_eqb (snd a) (snd b).
 (* one value per (ballot, slot): the abstract system's P2a freshness / invariant i2 *)
 Definition one_value_per_slot (outs : list (list (N * option N))) : bool :=
